@@ -7,7 +7,7 @@ import graphgen as GG
 import composites as CP
 
 RULE = ("(a) well-typed first- and higher-order expressions over generated languages (operators as arguments, partial application, several function "
-        "arguments, shared numbered sources) whose spines are headed by operators: the tf:from / tf:internal / tf:via sub-graph of add_expr is compared with "
+        "arguments, shared numbered sources) whose spines are headed by operators, each built once with the minimal switches and once with a random switch combination (mostly defaults: dependencies on): the tf:from / tf:internal / tf:via sub-graph of add_expr is compared with "
         "the model's and with an independently built data-flow graph (one node per operator application with an edge to each argument's node, one shared node "
         "per source object, one internal node per function-typed argument that feeds the passed operation, receives every other input and the outputs of "
         "sibling passed operations, nested internal nodes fed by the enclosing one); (b) languages with composite operators (compose, flip, const, identity, "
@@ -28,7 +28,6 @@ def flow_graph(expr, lang):
     g = Graph()
     nodes = {}
     FROM = TF["from"]
-    degenerate = []      # two passed functions of one step whose output is one and the same node
 
     def spine(e):
         args = []
@@ -78,11 +77,8 @@ def flow_graph(expr, lang):
             for j, an in enumerate(argnodes):
                 if j != i and an != lam:
                     g.add((lam, FROM, an))
-                    if internals[j] is not None and an == argnodes[i]:
-                        degenerate.append((i, j))
         return n
     out = build(expr)
-    g.degenerate = bool(degenerate)
     return g, out
 
 
@@ -145,27 +141,34 @@ def one_case(ctx, li, spec, ops, opdecls, lang, tree, ninputs):
     from rdflib import BNode
     from rdflib.compare import isomorphic
     text = X.tree_text(tree)
-    obs, ex, e, inputs = X.obs_typed(lang, text, ninputs, ops)
-    if e is None:
-        return
-    g = GG.make_graph(lang, FLOW_BITS)
-    root = BNode()
-    try:
-        out = g.add_expr(e, root)
-        gtext = GG.graph_text(g, lang, root, out)
-    except Exception as exn:  # noqa
-        gtext = "E:X:" + type(exn).__name__
-    case = {"lang": spec.to_json(), "text": text, "inputs": ninputs}
-    ctx.case(f"(gexpr {FLOW_BITS} {ninputs} {G.str_sexp(text)})", gtext, case, nontrivial=X.napps(tree) >= 2, key=(li, text), cmp=GG.iso)
-    ctx.count("hof" if " tf:internal " in gtext else "first_order")
-    replay = dict(case, opdecls=[[n, s] for n, s in opdecls])
-    if gtext.startswith("E:"):
-        ctx.fail(f"add_expr of `{text}` raised {gtext}", {"check": "add_expr-error"}, replay)
-        return
-    want, wout = flow_graph(e, lang)
-    if not isomorphic(flow_part(g), want):
-        ctx.fail(f"`{text}`: the from/internal/via sub-graph ({len(flow_part(g))} triples) is not the data-flow graph of the expression ({len(want)} triples)",
-            {"check": "data-flow", "higher_order": " tf:internal " in gtext, "same_node_function_outputs": getattr(want, "degenerate", False)}, replay)
+    # the data flow must not depend on the annotations that are switched on: once with the minimal switches, once with a random
+    # combination (mostly the defaults: dependencies, types, membership ... on)
+    for bits in (FLOW_BITS, GG.gen_bits(ctx.rng)):
+        obs, ex, e, inputs = X.obs_typed(lang, text, ninputs, ops)
+        if e is None:
+            return
+        g = GG.make_graph(lang, bits)
+        root = BNode()
+        try:
+            out = g.add_expr(e, root)
+            gtext = GG.graph_text(g, lang, root, out)
+        except Exception as exn:  # noqa
+            gtext = "E:X:" + type(exn).__name__
+        case = {"lang": spec.to_json(), "text": text, "inputs": ninputs, "bits": bits}
+        ctx.case(f"(gexpr {bits} {ninputs} {G.str_sexp(text)})", gtext, case, nontrivial=X.napps(tree) >= 2, key=(li, text, bits), cmp=GG.iso)
+        ctx.count("hof" if " tf:internal " in gtext else "first_order")
+        ctx.count("switches_minimal" if bits == FLOW_BITS else ("switches_dependencies_on" if bits[-1] == "T" else "switches_dependencies_off"))
+        replay = dict(case, opdecls=[[n, s] for n, s in opdecls])
+        if gtext.startswith("E:"):
+            ctx.fail(f"add_expr of `{text}` raised {gtext}", {"check": "add_expr-error"}, replay)
+            return
+        want, wout = flow_graph(e, lang)
+        if bits[0] == "F":      # with_operators off: no tf:via
+            from transforge.namespace import TF
+            want.remove((None, TF.via, None))
+        if not isomorphic(flow_part(g), want):
+            ctx.fail(f"`{text}` (switches {bits}): the from/internal/via sub-graph ({len(flow_part(g))} triples) is not the data-flow graph of the expression ({len(want)} triples)",
+                {"check": "data-flow", "higher_order": " tf:internal " in gtext}, replay)
 
 
 def composite_cases(ctx):
@@ -185,7 +188,7 @@ def composite_cases(ctx):
             except Exception as ex:  # noqa
                 ctx.count("composite_skipped_" + type(ex).__name__)
                 continue
-            g = TransformationGraph(fam.lang, minimal=True, with_operators=True)
+            g = TransformationGraph(fam.lang, minimal=True, with_operators=True) if k % 2 else TransformationGraph(fam.lang)
             try:
                 g.add_expr(p, BNode())
                 want, _ = flow_graph(p, fam.lang)
@@ -197,7 +200,7 @@ def composite_cases(ctx):
             ctx.count("composite_graphs")
             if not isomorphic(flow_part(g), want):
                 ctx.fail(f"expansion of `{text}` = `{p}`: from/internal/via sub-graph differs from the data-flow graph",
-                    {"check": "data-flow-composite", "same_node_function_outputs": getattr(want, "degenerate", False)}, {"family": fam.to_json(), "text": text})
+                    {"check": "data-flow-composite"}, {"family": fam.to_json(), "text": text})
 
 
 def replay(ctx, payload):
@@ -211,10 +214,11 @@ def replay(ctx, payload):
         p = e.primitive()
         p.fix()
         from transforge.graph import TransformationGraph
-        g = TransformationGraph(fam.lang, minimal=True, with_operators=True)
-        g.add_expr(p, BNode())
-        want, _ = flow_graph(p, fam.lang)
-        ok = isomorphic(flow_part(g), want)
+        ok = True
+        for g in (TransformationGraph(fam.lang, minimal=True, with_operators=True), TransformationGraph(fam.lang)):
+            g.add_expr(p, BNode())
+            want, _ = flow_graph(p, fam.lang)
+            ok = ok and isomorphic(flow_part(g), want)
         print(inp["text"], "->", p, "data-flow graph matches" if ok else "DIFFERS")
         return ok
     spec = G.LangSpec([(n, v, p) for n, v, p in inp["lang"]])
@@ -222,9 +226,12 @@ def replay(ctx, payload):
     opdecls = [(n, fix_schema(s)) for n, s in inp["opdecls"]]
     lang, operators = X.build_typed_language(spec, ops, opdecls)
     obs, ex, e, inputs = X.obs_typed(lang, inp["text"], inp["inputs"], ops)
-    g = GG.make_graph(lang, FLOW_BITS)
+    g = GG.make_graph(lang, inp.get("bits", FLOW_BITS))
     g.add_expr(e, BNode())
     want, _ = flow_graph(e, lang)
+    if inp.get("bits", FLOW_BITS)[0] == "F":
+        from transforge.namespace import TF
+        want.remove((None, TF.via, None))
     ok = isomorphic(flow_part(g), want)
-    print(inp["text"], "data-flow graph matches" if ok else "DIFFERS")
+    print(inp["text"], inp.get("bits", FLOW_BITS), "data-flow graph matches" if ok else "DIFFERS")
     return ok
